@@ -1,5 +1,6 @@
 import GrinVerif.Drv.Common
 import GrinVerif.Model.Store
+import GrinVerif.Model.StoreExt
 /-! Driver glue for the `store` domain (property C08).
 
 Every line is answered three ways: by the implementation (the text after `=>`), by the model
@@ -30,7 +31,18 @@ the property fixes – `Props/C08.lean`, for every history satisfying `RefSt.Pro
   `disk` line after a write is compared with the model only.
 `cmpModel` only: `usize_mid` (inside a unit the theorem says nothing about `unpruned_size`),
 `sizes`, `prunelist`, the `pl_*` stream, the acknowledgements of `new`/`sync`/`discard`/
-`compact`/`reopen`, and the whole out-of-protocol `x*` stream. -/
+`compact`/`reopen`, and the whole out-of-protocol `x*` stream.
+
+Import path (state sync) and further views (`Model/StoreExt.lean`): `pushpruned pos0 hash [leaf data…]`
+(`PMMR::push_pruned_subtree`; the leaf data of the subtree is ghost information for the reference,
+which pushes those leaves as spent ones; the hash handed to the store must be the reference hash of
+`pos0`; resulting size spec-compared – `history_from_synced_state` of Props/C08Import for the histories that follow; the import step itself is sampled), `rmleaf pos`
+(`remove_from_leaf_set`), `nleaves_to i` / `leafidx i` (`n_unpruned_leaves_to_index`, `leaf_idx_iter`:
+functions of the unspent set, spec-compared), `resetpl` (`reset_prune_list`, model only),
+`snapshot` / `reopen_snap` (leaf-set snapshot taken inside a rewound unit and used by
+`PMMRBackend::new(.., Some(header))`: the reference unspent set becomes the one at the snapshot).
+`new npfixed|npvar`: the non-prunable backend (`prunable == false`, kernel / header MMR); the same
+operation names are answered by the `np*` functions; the reference never spends a leaf. -/
 namespace GV.Drv.StoreD
 open GV GV.Pmmr GV.Store GV.Drv
 
@@ -62,6 +74,11 @@ structure St where
   /-- the last `disk` answer of the implementation, while nothing has been allowed to write to the
   files since (`none` after `new` / `sync` / `compact`) -/
   lastDisk : Option String := none
+  /-- non-prunable backend (`prunable == false`) -/
+  np : Bool := false
+  /-- `LeafSet::snapshot`: the bitmap written to the side file, and the reference unspent set then -/
+  snap : Bitmap := []
+  snapRef : List Nat := []
 
 def showPl (pl : PruneList) : String :=
   s!"{showNatList pl.bitmap} {showNatList pl.shiftCache} {showNatList pl.leafShiftCache}"
@@ -124,13 +141,122 @@ every unspent leaf -/
 def neededPos (size : Nat) (unspent : List Nat) : List Nat :=
   peaks size ++ unspent ++ unspent.flatMap fun p => (familyBranch p size).map (·.2)
 
+/-- the non-prunable backend (`new npfixed` / `new npvar`): same operation names, answered by the
+`np*` functions of `Model/StoreExt.lean`; the reference never spends a leaf -/
+def handleNp (st : St) (args : List String) (impl : String) : St × Verdict :=
+  let el := varElemLen
+  match args with
+  | ["push", e] => match parseHex e with
+    | none => (st, .unknown)
+    | some e =>
+      match st.ref.push e, st.pm.npPush realHF e with
+      | some r, some pm => ({ st with ref := r, pm := pm }, cmp2 (toString r.hashes.length) (toString pm.size) impl)
+      | some r, none => ({ st with ref := r }, cmp2 (toString r.hashes.length) "err" impl)
+      | none, some pm => ({ st with pm := pm }, cmp2 "err" (toString pm.size) impl)
+      | none, none => (st, cmp2 "err" "err" impl)
+  | ["prune", p] => match nat? p with
+    | none => (st, .unknown)
+    | some p =>
+      -- `PMMR::prune`: not a leaf -> Err; nothing there -> Ok(false); else `Backend::remove` asserts
+      let model := if !isLeaf p then "err" else if (st.pm.b.npGetHash p).isNone then "false" else "panic"
+      (st, cmpModel model impl)
+  | ["rewind", size, _] => match nat? size with
+    | some size =>
+      let r := st.ref.rewind size []
+      let pm := st.pm.npRewind size
+      ({ st with ref := r, pm := pm }, cmp2 (toString r.hashes.length) (toString pm.size) impl)
+    | none => (st, .unknown)
+  | ["sync"] =>
+    ({ st with pm := { st.pm with b := st.pm.b.npSync }, refC := st.ref, sizeC := st.pm.size,
+               lastDisk := none }, cmpModel "ok" impl)
+  | ["discard"] =>
+    ({ st with pm := { b := st.pm.b.discard, size := st.sizeC }, ref := st.refC }, cmpModel "ok" impl)
+  | ["reopen"] =>
+    ({ st with pm := { st.pm with b := st.pm.b.reopen el } }, cmpModel "ok" impl)
+  | ["root"] =>
+    (st, cmp2 (showRoot (Pmmr.root realHF st.ref.hashes)) (showRoot (rootG realHF st.pm.size st.pm.npGetPeak)) impl)
+  | ["usize"] => (st, cmp2 (toString st.ref.hashes.length) (toString st.pm.b.unprunedSize) impl)
+  | ["usize_mid"] => (st, cmpModel (toString st.pm.b.unprunedSize) impl)
+  | ["nleaves"] =>
+    -- `n_leaves(unpruned_size())`: the synced size, whatever the handle's size is
+    (st, cmpModel (toString st.pm.b.npNUnprunedLeaves) impl)
+  | ["nleaves_sync"] => (st, cmp2 (toString st.ref.unspent.length) (toString st.pm.b.npNUnprunedLeaves) impl)
+  | ["nleaves_to", i] => match nat? i with
+    | some i => (st, cmpModel (toString (Backend.npNUnprunedLeavesToIndex i)) impl)
+    | none => (st, .unknown)
+  | ["data", p] => match nat? p with
+    | some p => (st, cmp2 (showOptHex (st.ref.getData p)) (showOptHex (st.pm.npGetData el p)) impl)
+    | none => (st, .unknown)
+  | ["hash", p] => match nat? p with
+    | some p => (st, cmp2 (showOptHex (st.ref.getHash p)) (showOptHex (st.pm.npGetHash p)) impl)
+    | none => (st, .unknown)
+  | ["node", p] => match nat? p with
+    | some p =>
+      let model := showOptHex (st.pm.npGetHash p)
+      if p < st.ref.hashes.length && !isLeaf p then (st, cmp2 (showOptHex st.ref.hashes[p]?) model impl)
+      else (st, cmpModel model impl)
+    | none => (st, .unknown)
+  | ["leafobs"] =>
+    let size := st.ref.hashes.length
+    let spec := leafObsBytes size st.ref.getData st.ref.getHash
+    let model := leafObsBytes st.pm.size (st.pm.npGetData el) st.pm.npGetHash
+    let hs := toHex (h256 spec)
+    let hm := if model = spec then hs else toHex (h256 model)
+    (st, cmp2 hs hm impl)
+  | ["proof", p] => match nat? p with
+    | some p =>
+      let spec := if st.ref.isUnspent p then Pmmr.merkleProof realHF st.ref.hashes p else none
+      (st, cmp2 (showProof spec) (showProof (st.pm.npMerkleProof realHF p)) impl)
+    | none => (st, .unknown)
+  | ["sizes"] =>
+    (st, cmpModel s!"{st.pm.b.hashSize} {st.pm.b.dataSize} {st.pm.b.pruneList.bitmap.length}" impl)
+  | _ => (st, .unknown)
+
 def handle (st : St) (args : List String) (impl : String) : St × Verdict :=
   let el := varElemLen
   -- `@n` tokens only number the observation inside the run
-  match args.filter (fun a => !a.startsWith "@") with
+  let args := args.filter (fun a => !a.startsWith "@")
+  if st.np && args.head? != some "new" then handleNp st args impl else
+  match args with
   | ["new", kind] =>
-    let df : DFile := if kind = "var" then .var {} else .fixed {}
-    ({ pm := { b := { dataFile := df }, size := 0 } }, cmpModel "ok" impl)
+    let df : DFile := if kind = "var" || kind = "npvar" then .var {} else .fixed {}
+    ({ pm := { b := { dataFile := df }, size := 0 }, np := kind.startsWith "np" }, cmpModel "ok" impl)
+  -- the import path of state sync
+  | ["pushpruned", p, h, es] => match nat? p, parseHex h, parseHexList es with
+    | some p, some h, some es =>
+      -- the reference holds the leaves of the subtree, all spent
+      let r := es.foldl (fun r e => match r.push e with
+        | some r' => { r' with unspent := r.unspent }
+        | none => r) st.ref
+      let (pm, ok) := st.pm.pushPrunedSubtree realHF h p
+      let spec := if r.hashes[p]? = some h then toString r.hashes.length else "bad-hash"
+      ({ st with ref := r, pm := pm }, cmp2 spec (if ok then toString pm.size else "err") impl)
+    | _, _, _ => (st, .unknown)
+  | ["xpushpruned", p, h] => match nat? p, parseHex h with
+    | some p, some h =>
+      let (pm, ok) := st.pm.pushPrunedSubtree realHF h p
+      ({ st with pm := pm }, cmpModel (if ok then toString pm.size else "err") impl)
+    | _, _ => (st, .unknown)
+  | ["rmleaf", p] => match nat? p with
+    | some p =>
+      ({ st with ref := { st.ref with unspent := st.ref.unspent.filter (· != p) },
+                 pm := { st.pm with b := st.pm.b.removeFromLeafSet p } }, cmpModel "ok" impl)
+    | none => (st, .unknown)
+  | ["resetpl"] => ({ st with pm := { st.pm with b := st.pm.b.resetPruneList } }, cmpModel "ok" impl)
+  | ["nleaves_to", i] => match nat? i with
+    | some i =>
+      (st, cmp2 (toString (st.ref.unspent.filter (· + 1 < i)).length)
+        (toString (st.pm.b.nUnprunedLeavesToIndex i)) impl)
+    | none => (st, .unknown)
+  | ["leafidx", i] => match nat? i with
+    | some i =>
+      let spec := (st.ref.unspent.filter (· ≥ insertionToPmmrIndex i)).map fun p => nLeaves (p + 1) - 1
+      (st, cmp2 (showNatList spec) (showNatList (st.pm.b.leafIdxIter i)) impl)
+    | none => (st, .unknown)
+  | ["snapshot"] => ({ st with snap := st.pm.b.snapshot, snapRef := st.ref.unspent }, cmpModel "ok" impl)
+  | ["reopen_snap"] =>
+    ({ st with pm := { st.pm with b := st.pm.b.reopenWithSnapshot el st.snap },
+               ref := { st.ref with unspent := st.snapRef } }, cmpModel "ok" impl)
   | ["push", e] => match parseHex e with
     | none => (st, .unknown)
     | some e =>
